@@ -230,6 +230,10 @@ func (d DB) InboxForActor(c context.Context, actorIRI *url.URL) (*url.URL, error
 		return nil, err
 	}
 	a.dbAccess(c, "InboxForActor", us(actorIRI))
+	if in, ok := a.SharedInbox[us(actorIRI)]; ok {
+		a.note(idx, c, "stored-shared")
+		return U(in), nil
+	}
 	if a.StoredInbox[us(actorIRI)] {
 		a.note(idx, c, "stored")
 		return U(us(actorIRI) + "/inbox"), nil
